@@ -30,6 +30,7 @@ fn lib_menu() -> Vec<&'static str> {
         "30 FOR I = 1 TO 2",
         "40 NEXT I",
         "45 PRINT FNA(2);",
+        "20 ? \"q\";X",
         "50 DEF FNA(X) = X",
         "60 PRINT FNA(1)",
         "70 DATA 1, \"a\"",
